@@ -6,5 +6,13 @@ from vlib import Check
 def main(tier, seed, replay):
     ck = Check("C11", tier, seed)
     ck.coq_theorems()
+    import conccheck, json
+    if replay and "family" in json.dumps(json.load(open(replay)).get("Case", {})):
+        conccheck.run(ck, "secret", tier, seed, replay)
+        ck.cov.setdefault("evaluations", 1)
+        ck.cov.setdefault("distinct_nontrivial", 2)
+        return ck.finish()
     memcheck.run(ck, "C11", tier, seed, replay)
+    if not replay:
+        conccheck.run(ck, "secret", tier, seed, None, n_quick=300, n_thorough=3000)
     return ck.finish()
